@@ -684,11 +684,11 @@ func (d *Document) Save(filename string) error {
 		Errorf("无法创建文件: %s", filename)
 		return WrapErrorWithContext("create_file", err, filename)
 	}
+	// 成功路径上会显式关闭并检查错误；此处的 defer 仅用于出错返回时释放句柄
 	defer file.Close()
 
 	// 创建ZIP写入器
 	zipWriter := zip.NewWriter(file)
-	defer zipWriter.Close()
 
 	// 序列化主文档
 	if err := d.serializeDocument(); err != nil {
@@ -725,6 +725,18 @@ func (d *Document) Save(filename string) error {
 		}
 
 		Debugf("已写入ZIP条目: %s (%d 字节)", name, len(data))
+	}
+
+	// 关闭ZIP写入器：中央目录和缓冲数据在此时才真正写出，必须检查错误
+	if err := zipWriter.Close(); err != nil {
+		Errorf("无法完成ZIP写入: %s", filename)
+		return WrapErrorWithContext("close_zip", err, filename)
+	}
+
+	// 关闭文件并检查错误
+	if err := file.Close(); err != nil {
+		Errorf("无法关闭文件: %s", filename)
+		return WrapErrorWithContext("close_file", err, filename)
 	}
 
 	Infof("成功保存文档: %s", filename)
